@@ -14,6 +14,8 @@
 EXTENDS Integers, FiniteSets, Sequences, TLC
 
 CONSTANTS Proc,          \* command processes
+          BackupProcs,   \* processes that may run backups
+          PruneProcs,    \* processes that may run forget / prune / repair-index
           Version,       \* source versions that can be backed up
           Needs,         \* [Version -> set of typed blobs]
           KD,            \* keep-delete time of every prune (ticks)
@@ -56,9 +58,12 @@ Keys(S) == {Key(b) : b \in S}
 -----------------------------------------------------------------------------
 (* backup *)
 
+\* a command starting while a prune runs makes that prune "not clean" (it overlaps)
+Overlap(l, p) == [q \in Proc |-> IF q # p /\ "clean" \in DOMAIN l[q] THEN [l[q] EXCEPT !.clean = FALSE] ELSE l[q]]
+
 BStart(p, v) ==
-  /\ CanStart(p)
-  /\ loc' = [loc EXCEPT ![p] = [pc |-> "b_load", v |-> v, view |-> {}, up |-> {}, pend |-> {}, start |-> now]]
+  /\ CanStart(p) /\ p \in BackupProcs
+  /\ loc' = Overlap([loc EXCEPT ![p] = [pc |-> "b_load", v |-> v, view |-> {}, up |-> {}, pend |-> {}, start |-> now]], p)
   /\ ncmd' = ncmd + 1
   /\ hist' = Append(hist, <<"backup", v>>)
   /\ UNCHANGED <<packs, idx, snaps, now, nextp, nexti>>
@@ -105,7 +110,7 @@ BSnap(p) ==
 (* forget *)
 
 Forget(p, s) ==
-  /\ CanStart(p)
+  /\ CanStart(p) /\ p \in PruneProcs
   /\ ~AppendOnly
   /\ s \in DOMAIN snaps
   /\ snaps' = Drop(snaps, s)
@@ -117,12 +122,13 @@ Forget(p, s) ==
 (* prune *)
 
 PStart(p, instant, early) ==
-  /\ CanStart(p)
+  /\ CanStart(p) /\ p \in PruneProcs
   /\ ~AppendOnly
   /\ instant => AllowInstant
   /\ early => (instant /\ AllowEarly)
-  /\ loc' = [loc EXCEPT ![p] = [pc |-> "p_index", instant |-> instant, early |-> early, iv |-> {}, ifiles |-> {}, used |-> {},
-                                 newents |-> {}, repack |-> {}, repacked |-> {}, del |-> {}, unref |-> {}, time |-> 0]]
+  /\ loc' = Overlap([loc EXCEPT ![p] = [pc |-> "p_index", instant |-> instant, early |-> early, iv |-> {}, ifiles |-> {}, used |-> {},
+                                 newents |-> {}, repack |-> {}, repacked |-> {}, del |-> {}, unref |-> {}, time |-> 0,
+                                 clean |-> (Running = {})]], p)
   /\ ncmd' = ncmd + 1
   /\ hist' = Append(hist, <<"prune", instant, early>>)
   /\ UNCHANGED <<packs, idx, snaps, now, nextp, nexti>>
@@ -241,7 +247,7 @@ PRmIdx(p) ==
 PRmPack(p) ==
   /\ loc[p].pc = "p_rmpack"
   /\ IF loc[p].del = {}
-     THEN /\ loc' = [loc EXCEPT ![p] = [pc |-> "idle", done |-> "prune"]] /\ packs' = packs
+     THEN /\ loc' = [loc EXCEPT ![p] = [pc |-> "idle", done |-> "prune", cleanrun |-> loc[p].clean]] /\ packs' = packs
      ELSE \E q \in loc[p].del :
             /\ packs' = IF q \in DOMAIN packs THEN Drop(packs, q) ELSE packs
             /\ loc' = [loc EXCEPT ![p].del = @ \ {q}]
@@ -251,7 +257,7 @@ PRmPack(p) ==
 (* repair-index: rebuild index information from the pack files themselves *)
 
 RStart(p, readAll) ==
-  /\ CanStart(p)
+  /\ CanStart(p) /\ p \in PruneProcs
   /\ ~AppendOnly
   /\ loc' = [loc EXCEPT ![p] = [pc |-> "r_scan", readAll |-> readAll, reread |-> {}, changed |-> {}]]
   /\ ncmd' = ncmd + 1
@@ -353,6 +359,10 @@ AllRecoverable == P!AllRecoverable
 BroughtBack == \A p \in Proc : ("done" \in DOMAIN loc[p] /\ Running = {}) => P!NotBroughtBack = {}
 
 NoDangling == P!Dangling = {}
+
+\* C10: once a prune that did not overlap with anything has completed, every snapshot is readable
+AfterCleanPrune == \A p \in Proc :
+  ("done" \in DOMAIN loc[p] /\ loc[p].done = "prune" /\ loc[p].cleanrun /\ Running = {}) => P!AllReadable
 
 \* C08: what the packs hold can always be re-derived: after a completed repair-index every blob of
 \* every present pack is indexed again, so every snapshot whose blobs are physically there is readable
